@@ -23,7 +23,33 @@ type Config struct {
 	IdleLimit     time.Duration // virtual time with nothing runnable before a run with a live main task is declared stuck (0 = 2h)
 	TraceCap      int           // decisions kept verbatim for replay files (0 = 4000)
 	NoTrace       bool
+	// PCTPermille: share of runs scheduled by priorities instead of uniformly (probabilistic concurrency
+	// testing, Burckhardt et al.): every task gets a random priority, the runnable task with the highest
+	// priority always runs, and at d-1 drawn change points the running task drops below everybody else.
+	// A low-priority task is thereby paused for as long as others can run — the kind of long pause inside
+	// a two-statement window that uniform picking makes astronomically unlikely. 0 = DefaultPCTPermille,
+	// negative = never.
+	PCTPermille int
+	// PausePermille: share of runs with one pause rule (see Sched.pauseOn). 0 = DefaultPausePermille,
+	// negative = never.
+	PausePermille int
 }
+
+// DefaultPausePermille applies to harnesses that do not set Config.PausePermille (env VERIF_PAUSE_PERMILLE).
+var DefaultPausePermille = func() int {
+	if v, err := strconv.Atoi(os.Getenv("VERIF_PAUSE_PERMILLE")); err == nil {
+		return v
+	}
+	return 300
+}()
+
+// DefaultPCTPermille applies to harnesses that do not set Config.PCTPermille (env VERIF_PCT_PERMILLE).
+var DefaultPCTPermille = func() int {
+	if v, err := strconv.Atoi(os.Getenv("VERIF_PCT_PERMILLE")); err == nil {
+		return v
+	}
+	return 300
+}()
 
 // Result is what one simulated run reports about its schedule.
 type Result struct {
@@ -40,6 +66,8 @@ type Result struct {
 	Residue   []string      // goroutines of the bubble still alive after main returned and the run drained
 	Deadlock  string        // synctest's own deadlock report when leaving the bubble, if any
 	AutoTasks int           // goroutines that reached a yield point without having been started through Go
+	PCT       bool          // this run was scheduled by priorities
+	Paused    string        // program point at which the pause rule suspended a task ("" = rule did not fire / no rule)
 }
 
 type task struct {
@@ -50,6 +78,12 @@ type task struct {
 	spawned int
 	idle    bool // parked in WaitIdle: released only when nothing else is runnable
 	gid     int64
+	prio    int    // PCT priority (0 = not assigned yet)
+	key     uint64 // identity of the program point of the current park (site text or caller pc)
+	pc      uintptr
+	held    int  // > 0: suspended by the pause rule for that many more decisions
+	fresh   bool // parked since the last scheduling decision
+	lastPC  uintptr
 }
 
 func (t *task) idString() string {
@@ -92,8 +126,24 @@ type Sched struct {
 	res   Result
 	start time.Time
 
-	seq atomic.Uint64 // global event sequence number (stamps for histories)
-	sleepers atomic.Int32 // tasks inside TimeSleep: waiting for them is not being stuck
+	pct     bool
+	changes map[int]bool // PCT priority change points (step numbers)
+	lowPrio int
+
+	// pause rule (one per run, if drawn): the task that parks for the pauseK-th time at a program point
+	// whose key falls into bucket pauseBucket is suspended for pauseLen decisions (or until nothing else
+	// can run) — a long pause at a specific scheduling point, e.g. between two statements that are only
+	// atomic by accident. Program points are identified by site text or caller pc, both stable for one
+	// binary, so a replay in a fresh process meets the same rule.
+	pauseOn     bool
+	pauseBucket uint64
+	pauseK      int
+	pauseLen    int
+	pauseSeen   int
+	pcNames     map[uintptr]string
+
+	seq      atomic.Uint64 // global event sequence number (stamps for histories)
+	sleepers atomic.Int32  // tasks inside TimeSleep: waiting for them is not being stuck
 }
 
 var cur atomic.Pointer[Sched]
@@ -192,6 +242,36 @@ func Yield(site string) {
 	s.park(t, site, false)
 }
 
+// YieldPC is Yield for synchronisation primitives: the program point is the caller of the primitive
+// (skip frames above YieldPC's caller), so that every Lock call site is a scheduling point of its own.
+func YieldPC(kind string, skip int) {
+	s := cur.Load()
+	if s == nil {
+		return
+	}
+	t := s.lookup(kind)
+	if t == nil {
+		return
+	}
+	var pcs [1]uintptr
+	runtime.Callers(skip+2, pcs[:])
+	t.pc = pcs[0]
+	s.park(t, kind, false)
+}
+
+const pauseBuckets = 256
+
+func siteKey(site string, pc uintptr) uint64 {
+	h := uint64(14695981039346656037)
+	for i := 0; i < len(site); i++ {
+		h ^= uint64(site[i])
+		h *= 1099511628211
+	}
+	h ^= uint64(pc)
+	h *= 1099511628211
+	return h
+}
+
 func (s *Sched) park(t *task, site string, idle bool) {
 	s.mu.Lock()
 	if s.stopping {
@@ -200,6 +280,15 @@ func (s *Sched) park(t *task, site string, idle bool) {
 	}
 	t.site = site
 	t.idle = idle
+	pc := t.pc
+	t.pc = 0
+	t.key = siteKey(site, pc)
+	t.held = 0
+	t.fresh = true
+	t.lastPC = pc
+	if pc != 0 && !s.cfg.NoTrace && s.res.Steps < s.cfg.TraceCap {
+		t.site = s.siteName(site, pc)
+	}
 	s.parked = append(s.parked, t)
 	if len(s.parked) > s.res.MaxParked {
 		s.res.MaxParked = len(s.parked)
@@ -212,6 +301,26 @@ func (s *Sched) park(t *task, site string, idle bool) {
 	if tok := <-t.ch; tok == 2 {
 		runtime.Goexit()
 	}
+}
+
+// siteName resolves a caller pc to kind@file:line (cached; only used for traces). Called with s.mu held.
+func (s *Sched) siteName(kind string, pc uintptr) string {
+	if pc == 0 {
+		return kind
+	}
+	if n, ok := s.pcNames[pc]; ok {
+		return kind + "@" + n
+	}
+	n := "?"
+	if f := runtime.FuncForPC(pc - 1); f != nil {
+		file, line := f.FileLine(pc - 1)
+		if i := strings.LastIndexByte(file, '/'); i >= 0 {
+			file = file[i+1:]
+		}
+		n = file + ":" + strconv.Itoa(line)
+	}
+	s.pcNames[pc] = n
+	return kind + "@" + n
 }
 
 // WaitIdle parks the caller until no other task is runnable at the current instant.
@@ -355,12 +464,48 @@ func (s *Sched) loop(mainT *task) {
 		mainDone := s.mainDone
 		var cands []*task
 		var idlers []*task
+		if s.pauseOn && s.pauseSeen < s.pauseK {
+			// the pause rule counts parks in task-id order (arrival order of two goroutines that park at
+			// about the same time is the runtime's business)
+			var fresh []*task
+			for _, t := range s.parked {
+				if t.fresh && !t.idle {
+					fresh = append(fresh, t)
+				}
+			}
+			sort.Slice(fresh, func(i, j int) bool { return lessID(fresh[i].id, fresh[j].id) })
+			for _, t := range fresh {
+				if (t.key>>8)%pauseBuckets == s.pauseBucket {
+					s.pauseSeen++
+					if s.pauseSeen == s.pauseK {
+						t.held = s.pauseLen
+						s.res.Paused = s.siteName(strings.SplitN(t.site, "@", 2)[0], t.lastPC)
+					}
+				}
+			}
+		}
+		for _, t := range s.parked {
+			t.fresh = false
+		}
+		var held []*task
 		for _, t := range s.parked {
 			if t.idle {
 				idlers = append(idlers, t)
+			} else if t.held > 0 {
+				held = append(held, t)
 			} else {
 				cands = append(cands, t)
 			}
+		}
+		if len(cands) == 0 && len(held) > 0 {
+			// nothing else can run: the pause ends
+			for _, t := range held {
+				t.held = 0
+			}
+			cands, held = held, nil
+		}
+		for _, t := range held {
+			t.held--
 		}
 		s.mu.Unlock()
 		if n == 0 {
@@ -385,7 +530,8 @@ func (s *Sched) loop(mainT *task) {
 			continue
 		}
 		idleSince = time.Now()
-		if len(cands) == 0 {
+		onlyIdle := len(cands) == 0
+		if onlyIdle {
 			cands = idlers // only idle waiters left: the instant is quiescent
 		}
 		if s.res.Steps >= s.cfg.MaxSteps {
@@ -400,7 +546,26 @@ func (s *Sched) loop(mainT *task) {
 			continue
 		}
 		sort.Slice(cands, func(i, j int) bool { return lessID(cands[i].id, cands[j].id) })
-		t := cands[s.tape.Draw(len(cands))]
+		var t *task
+		if s.pct && !onlyIdle && s.tape.Draw(20) != 19 {
+			for _, c := range cands {
+				if c.prio == 0 {
+					c.prio = 1000 + s.tape.Draw(1000000)
+				}
+			}
+			t = cands[0]
+			for _, c := range cands[1:] {
+				if c.prio > t.prio {
+					t = c
+				}
+			}
+			if s.changes[s.res.Steps] {
+				s.lowPrio--
+				t.prio = s.lowPrio
+			}
+		} else {
+			t = cands[s.tape.Draw(len(cands))]
+		}
 		s.mu.Lock()
 		for i, p := range s.parked {
 			if p == t {
@@ -502,6 +667,47 @@ func Run(t *testing.T, cfg Config, tape *Stream, main func()) (res Result) {
 	}
 	s := &Sched{cfg: cfg, tape: tape, byGid: map[int64]*task{}}
 	resetIdent()
+	pm := cfg.PCTPermille
+	if pm == 0 {
+		pm = DefaultPCTPermille
+	}
+	s.pcNames = map[uintptr]string{}
+	pp := cfg.PausePermille
+	if pp == 0 {
+		pp = DefaultPausePermille
+	}
+	if pm < 0 {
+		pm = 0
+	}
+	if pp < 0 {
+		pp = 0
+	}
+	mode := 0
+	if pm > 0 || pp > 0 {
+		v := tape.Draw(1000)
+		if v >= 1000-pm {
+			mode = 1
+		} else if v >= 1000-pm-pp {
+			mode = 2
+		}
+	}
+	if mode == 2 {
+		s.pauseOn = true
+		s.pauseBucket = uint64(tape.Draw(pauseBuckets))
+		s.pauseK = 1 + tape.Draw(4)
+		s.pauseLen = []int{50, 500, 5000, 1 << 30}[tape.Draw(4)]
+	}
+	if mode == 1 {
+		s.pct = true
+		s.res.PCT = true
+		s.lowPrio = 999
+		s.changes = map[int]bool{}
+		d := tape.Draw(4) // number of change points
+		horizon := []int{200, 1000, 5000, 20000}[tape.Draw(4)]
+		for i := 0; i < d; i++ {
+			s.changes[1+tape.Draw(horizon)] = true
+		}
+	}
 	defer func() {
 		cur.Store(nil)
 		if r := recover(); r != nil {
